@@ -90,7 +90,7 @@ class C08(Prop):
                 rtsel = rng.sample(outs, rng.randint(1, min(2, len(outs))))
                 ops["rtselect"] = rtsel
             yield {"program": program, "known": [[k, v] for k, v in known.items()], "rtselect": rtsel, "ops": ops,
-                   "runner": rng.choice(["sync", "async"])}
+                   "runner": rng.choice(["sync", "async"]), "rtselectTuple": rtsel is not None and rng.random() < 0.5}
 
     @staticmethod
     def _inner_binding_renamed(rng: random.Random) -> dict:
@@ -177,7 +177,7 @@ class C08(Prop):
             start = len(env.log)
             kwargs: dict[str, Any] = {"event_processors": [rec]}
             if case["rtselect"] is not None:
-                kwargs["select"] = case["rtselect"]
+                kwargs["select"] = tuple(case["rtselect"]) if case.get("rtselectTuple") else case["rtselect"]
             if t["entrypoint"] is not None and obs["effspec"]["entrypoints"] and len(obs["effspec"]["entrypoints"]) > 1:
                 kwargs["entrypoint"] = t["entrypoint"]
             vals = {k: py_val(v) for k, v in t["values"]}
@@ -218,7 +218,7 @@ class C08(Prop):
     def _outcome(g: Any, vals: dict, case: dict) -> str:
         kwargs: dict[str, Any] = {}
         if case["rtselect"] is not None:
-            kwargs["select"] = case["rtselect"]
+            kwargs["select"] = tuple(case["rtselect"]) if case.get("rtselectTuple") else case["rtselect"]
         with warnings.catch_warnings():
             warnings.simplefilter("ignore")
             try:
